@@ -593,12 +593,16 @@ def _unmask(v, mask):
             return t
         if t in memo:
             return memo[t]
-        if t.op == "getitem" and isinstance(t.args[0], Term) and t.args[0].op == "store" and t.args[0].args[1] == mask and t.args[1] == mask:
+        if t.op == "getitem" and isinstance(t.args[0], Term) and t.args[0].op == "store" and _canon_idx_term(t.args[0].args[1]) == mask and _canon_idx_term(t.args[1]) == mask:
             r = rec(t.args[0].args[2])
-        elif t.op == "getitem" and t.args[1] == mask:
+        elif t.op == "getitem" and _canon_idx_term(t.args[1]) == mask:
             r = t.args[0]
         elif t.op in ("const", "dim"):
             r = t
+        elif t.op == "store" and len(t.args) == 3 and isinstance(t.args[1], Term) and t.args[1].op in ("lt", "le", "gt", "ge", "eq", "ne", "invert", "bitand", "bitor") and isinstance(t.args[2], Term) and t.args[2].op == "const":
+            # an elementwise masked fill commutes with a selection of rows
+            ub, uc = rec(t.args[0]), rec(t.args[1])
+            r = None if (ub is None or uc is None) else Term("store", ub, uc, t.args[2])
         elif (t.op in _EW and t.op != "sym") or t.op in ("where3", "lt", "le", "gt", "ge", "eq", "ne", "invert", "bitand", "bitor"):
             parts = [rec(a) for a in t.args]
             r = None if any(p is None for p in parts) else Term(t.op, *parts)
@@ -640,6 +644,31 @@ def _nonempty_guard(c, idx):
         return is_len(x) and y == one
     if c.op == "le":
         return is_len(y) and x == one
+    return False
+
+
+def _empty_guard(c, idx):
+    """is the condition exactly `len(idx) == 0` (in one of its spellings) for the stored index"""
+    if not isinstance(c, Term):
+        return False
+    zero, one = Term("const", Fraction(0)), Term("const", Fraction(1))
+
+    def is_len(z):
+        return isinstance(z, Term) and z.op in ("len", "size") and len(z.args) == 1 and z.args[0] == idx
+
+    if len(c.args) != 2:
+        return False
+    x, y = c.args
+    if c.op == "eq":
+        return (is_len(x) and y == zero) or (is_len(y) and x == zero)
+    if c.op == "lt":
+        return is_len(x) and y == one
+    if c.op == "le":
+        return is_len(x) and y == zero
+    if c.op == "gt":
+        return is_len(y) and x == one
+    if c.op == "ge":
+        return is_len(y) and x == zero
     return False
 
 
@@ -830,6 +859,10 @@ class Normalizer:
             # len(idx) != 0, len(idx) >= 1, truthiness of len) on the taken branch qualifies
             st_t, other = a[1], a[2]
             if isinstance(st_t, Term) and st_t.op == "store" and self.nf(st_t.args[0]) == self.nf(other) and _nonempty_guard(a[0], st_t.args[1]):
+                return self.nf(st_t)
+            # the mirrored spelling: `if len(idx) == 0: return b` before `b[idx] = v`
+            st_t, other = a[2], a[1]
+            if isinstance(st_t, Term) and st_t.op == "store" and self.nf(st_t.args[0]) == self.nf(other) and _empty_guard(a[0], st_t.args[1]):
                 return self.nf(st_t)
             return P_atom(A("phi", self.freeze(a[0]), wrap(x), wrap(y)))
         if op == "nonzero1" and _setdiff_pattern(t) is not None:
